@@ -205,6 +205,14 @@ struct G<'a, 'b> {
     consts: Vec<(String, T)>,
     /// locals whose type hangs on a constant's type
     tainted: Vec<String>,
+    /// unannotated lambda parameters inside their own body: Gleam does not know their type yet,
+    /// so `p.field` / `p.0` on them is an error in Gleam ("type not known yet"), not a typing the
+    /// property speaks about
+    opaque: Vec<String>,
+    /// > 0 while generating the base of a field access / tuple index
+    need_known: u32,
+    /// an opaque local was used since the current `let` began: its binders are opaque too
+    used_opaque: bool,
 }
 
 const CONSTS: &str = "const kint = 42\n\npub const kfloat: Float = 1.5\n\nconst kstr = \"s\"\n\nconst klist = [1, 2]\n\nconst ktup: #(Int, String) = #(1, \"a\")\n\n";
@@ -292,13 +300,20 @@ impl<'a, 'b> G<'a, 'b> {
         let vars: Vec<String> = self.env.iter().filter(|(_, ty)| ty == t).map(|(n, _)| n.clone()).collect();
         if !vars.is_empty() && self.c.chance(if depth == 0 { 150 } else { 60 }) {
             // the latest binding of a name wins in Gleam: only use names whose latest binding has this type
-            let usable: Vec<&String> = vars.iter().filter(|n| self.env.iter().rev().find(|(m, _)| m == *n).map(|(_, ty)| ty == t).unwrap_or(false)).collect();
+            let usable: Vec<&String> = vars
+                .iter()
+                .filter(|n| self.env.iter().rev().find(|(m, _)| m == *n).map(|(_, ty)| ty == t).unwrap_or(false))
+                .filter(|n| self.need_known == 0 || !self.opaque.contains(n))
+                .collect();
             if !usable.is_empty() {
                 let v = usable[self.c.below(usable.len())].clone();
                 self.out.push_str(&v);
                 self.tag("variable");
                 if self.tainted.contains(&v) {
                     self.tag("constant use");
+                }
+                if self.opaque.contains(&v) {
+                    self.used_opaque = true;
                 }
                 return;
             }
@@ -587,6 +602,7 @@ impl<'a, 'b> G<'a, 'b> {
             .env
             .iter()
             .filter(|(n, ty)| ty == t && self.env.iter().rev().find(|(m, _)| m == n).map(|(_, ty2)| ty2 == t).unwrap_or(false))
+            .filter(|(n, _)| !self.opaque.contains(n))
             .map(|(n, _)| n.clone())
             .collect();
         if !usable.is_empty() && self.c.chance(128) {
@@ -598,7 +614,9 @@ impl<'a, 'b> G<'a, 'b> {
             return;
         }
         self.out.push_str("{ ");
+        self.need_known += 1;
         self.expr(t, depth);
+        self.need_known -= 1;
         self.out.push_str(" }");
     }
 
@@ -607,6 +625,10 @@ impl<'a, 'b> G<'a, 'b> {
         self.tainted.retain(|n| n != name);
         if tags.contains(&"constant use") {
             self.tainted.push(name.to_string());
+        }
+        self.opaque.retain(|n| n != name);
+        if self.used_opaque {
+            self.opaque.push(name.to_string());
         }
         self.binders.push(Binder { offset, name: name.to_string(), ty, what, tags, fn_params: None });
     }
@@ -628,6 +650,7 @@ impl<'a, 'b> G<'a, 'b> {
     fn let_stmt(&mut self, depth: usize) {
         let ty = self.gen_type(2);
         let saved = std::mem::take(&mut self.tags);
+        let saved_opaque = std::mem::replace(&mut self.used_opaque, false);
         match self.c.weighted(&[6, 2, 2, 1, 1]) {
             0 => {
                 let name = if self.c.chance(60) && !self.env.is_empty() { self.env[self.c.below(self.env.len())].0.clone() } else { self.fresh("v") };
@@ -783,6 +806,7 @@ impl<'a, 'b> G<'a, 'b> {
             }
         }
         self.tags = saved;
+        self.used_opaque |= saved_opaque;
     }
 
     fn case_bool(&mut self, t: &T, depth: usize) {
@@ -911,7 +935,9 @@ impl<'a, 'b> G<'a, 'b> {
         self.out.push_str(") { ");
         let mark = self.env.len();
         self.env.push((p.clone(), a.clone()));
+        self.opaque.push(p.clone());
         self.expr(t, depth);
+        self.opaque.retain(|n| n != &p);
         self.env.truncate(mark);
         self.out.push_str(" }(");
         self.expr(&a, 0);
@@ -944,7 +970,7 @@ pub struct Program {
 
 pub fn gen_program(c: &mut Choices, f: &Features) -> Program {
     let lib = "pub type Nums =\n  List(Int)\n\npub type Name =\n  String\n\npub type Entry =\n  #(Int, Name)\n\npub fn same(x: a) -> a {\n  x\n}\n\npub fn twice(x: Int) -> Int {\n  x + x\n}\n".to_string();
-    let mut g = G { c, out: String::new(), binders: vec![], env: vec![], tags: vec![], next: 0, f, excluded: BTreeMap::new(), helpers: vec![], lib_helpers: vec![], consts: vec![], tainted: vec![] };
+    let mut g = G { c, out: String::new(), binders: vec![], env: vec![], tags: vec![], next: 0, f, excluded: BTreeMap::new(), helpers: vec![], lib_helpers: vec![], consts: vec![], tainted: vec![], opaque: vec![], need_known: 0, used_opaque: false };
     g.out.push_str("import lib\n\n");
     g.out.push_str(PRELUDE);
     if f.constants {
@@ -1175,6 +1201,9 @@ impl Property for C09 {
     }
     fn marks(&self) -> bool {
         true
+    }
+    fn fuzz(&self) -> Option<crate::FuzzSpec> {
+        Some(crate::FuzzSpec { label: "c09-programs", max_len: 600, runs: 40000 })
     }
     fn run(&self, ctx: &mut Ctx) {
         let cases = ctx.tier.pick(3_000, 100_000);
